@@ -68,6 +68,26 @@ def allGellmann (S : Scalars α) (d : Nat) : List (Mat d α) :=
   ++ (diagIdx d).map (fun k => gm S d k.val k.val)
   ++ [gm S d 0 0]
 
+/-- the `with_I` option of `_all_gellmann_matrix_cache` (`gellmann.py:56-57`): `ret[:-1]` when `with_I=False` -/
+def dropI {β : Type} (withI : Bool) (L : List β) : List β := if withI then L else L.dropLast
+
+/-- `all_gellmann_matrix(d, tensor_n=1, with_I)` -/
+def allGellmannOpt (S : Scalars α) (d : Nat) (withI : Bool) : List (Mat d α) := dropI withI (allGellmann S d)
+
+/-- row index of the first factor: `r / d` -/
+def kdiv {d : Nat} (r : Fin (d * d)) : Fin d := ⟨r.val / d, Nat.div_lt_of_lt_mul r.isLt⟩
+/-- row index of the second factor: `r % d` -/
+def kmod {d : Nat} (r : Fin (d * d)) : Fin d :=
+  ⟨r.val % d, Nat.mod_lt _ (Nat.pos_of_ne_zero (by intro h; subst h; exact absurd r.isLt (by simp)))⟩
+
+/-- `np.kron(A, B)` of two `d×d` matrices: entry `(r1*d + r2, c1*d + c2) = A[r1,c1] * B[r2,c2]`, i.e. row `r ↦ (r / d, r % d)`. -/
+def kron2 (d : Nat) (A B : Mat d α) : Mat (d * d) α := fun r c => A (kdiv r) (kdiv c) * B (kmod r) (kmod c)
+
+/-- `_all_gellmann_matrix_cache(d, 2, with_I)` (`gellmann.py:53-57`): `itertools.product(range(d²), repeat=2)` enumerates `(a, b)` with `a` outermost,
+element `a*d² + b` is `np.kron(G_a, G_b)`; `with_I=False` drops only the last element `I⊗I`. -/
+def allGellmannT2 (S : Scalars α) (d : Nat) (withI : Bool) : List (Mat (d * d) α) :=
+  dropI withI ((allGellmann S d).flatMap fun A => (allGellmann S d).map fun B => kron2 d A B)
+
 /-- `matrix_to_gellmann_basis` (`gellmann.py:82-120`), numpy and torch branch are the same formula:
 `aS = (A+Aᵀ)[triu]/2`, `aA = (A-Aᵀ)[triu]*0.5j`,
 `aD_k = (cumsum(diag)[k-1] - k*diag[k]) / sqrt(2k(k+1))`, `aI = trace * 1/sqrt(2d)`. -/
